@@ -24,10 +24,16 @@
 //! path pie really uses for output checkers is `TaskDependencyObj` (`dependency.rs`), which routes 2 and 3 exercise
 //! (`TopDownCheckObj::is_consistent` and `TaskDependencyObj::is_consistent_bottom_up`).
 //!
+//! Besides plain payload types the alphabet contains two output types whose `Eq` relates values in DIFFERENT enum
+//! variants (`Cow<'static, str>`: `Borrowed("a") == Owned("a")`; `Norm` with a hand-written normalising `PartialEq`:
+//! `Short(1) == Full(1, 0)`), for `EqualsChecker` and `AlwaysConsistent`: the documented relation is the type's own
+//! `==`, not structural identity.
+//!
 //! Parametricity argument (recorded in the evidence): the five checkers use nothing of the payload but `==`, `clone`,
 //! `is_ok`/`is_err`/`ok()`/`err()`; three distinct payload values therefore exercise every branch (equal, different,
 //! and "different from both"), for both `Ok` and `Err`.
 
+use std::borrow::Cow;
 use std::cell::Cell;
 use std::collections::{BTreeMap, BTreeSet};
 use std::fmt::Debug;
@@ -93,6 +99,9 @@ fn payloads(tier: Tier) -> Vec<u8> {
 pub trait Alpha: Clone + Eq + Hash + Debug + 'static {
   const NAME: &'static str;
   fn alphabet(tier: Tier) -> Vec<Self>;
+  /// Text that identifies the member of the alphabet, representation included (the `Debug` form unless that hides the
+  /// representation, as for `Cow`).
+  fn label(&self) -> String { format!("{:?}", self) }
 }
 
 impl Alpha for u8 {
@@ -131,6 +140,44 @@ impl Alpha for Result<u8, u8> {
     let p = payloads(tier);
     let mut v: Vec<Self> = p.iter().map(|x| Ok(*x)).collect();
     v.extend(p.iter().map(|x| Err(*x)));
+    v
+  }
+}
+
+/// An output type whose `Eq` relates values of DIFFERENT enum variants (`Borrowed("a") == Owned("a")`): the documented
+/// relation of `EqualsChecker` is `==`, not identity of representation.
+impl Alpha for Cow<'static, str> {
+  const NAME: &'static str = "Cow<'static,str>";
+  fn alphabet(tier: Tier) -> Vec<Self> {
+    let mut v = vec![Cow::Borrowed(""), Cow::Owned(String::new()), Cow::Borrowed("a"), Cow::Owned("a".to_string()), Cow::Borrowed("b")];
+    if tier == Tier::Thorough { v.extend([Cow::Owned("b".to_string()), Cow::Borrowed("ab"), Cow::Owned("ab".to_string())]); }
+    v
+  }
+  fn label(&self) -> String {
+    match self { Cow::Borrowed(s) => format!("Borrowed({:?})", s), Cow::Owned(s) => format!("Owned({:?})", s) }
+  }
+}
+
+/// An enum with a hand-written normalising equality: `Short(a) == Full(a, 0)`. `Hash` agrees with `Eq`.
+#[derive(Clone, Copy, Debug)]
+pub enum Norm { Short(u8), Full(u8, u8) }
+
+impl Norm {
+  fn normal(&self) -> (u8, u8) { match *self { Norm::Short(a) => (a, 0), Norm::Full(a, b) => (a, b) } }
+}
+impl PartialEq for Norm {
+  fn eq(&self, other: &Self) -> bool { self.normal() == other.normal() }
+}
+impl Eq for Norm {}
+impl Hash for Norm {
+  fn hash<S: std::hash::Hasher>(&self, state: &mut S) { self.normal().hash(state) }
+}
+
+impl Alpha for Norm {
+  const NAME: &'static str = "Norm{Short(u8)|Full(u8,u8)}";
+  fn alphabet(tier: Tier) -> Vec<Self> {
+    let mut v = vec![Norm::Short(0), Norm::Short(1), Norm::Full(0, 0), Norm::Full(1, 0), Norm::Full(1, 1)];
+    if tier == Tier::Thorough { v.extend([Norm::Short(2), Norm::Full(2, 0), Norm::Full(0, 1), Norm::Full(2, 1)]); }
     v
   }
 }
@@ -470,6 +517,7 @@ struct Ctx {
   nontrivial: BTreeSet<(String, String, String, String)>,
   outcomes: BTreeMap<(String, String, bool), u64>,
   per_checker: BTreeMap<String, (u64, u64)>,
+  combinations: u64,
   samples: Vec<Value>,
   sample_keys: BTreeSet<(String, bool)>,
   failures: Vec<(Failure, Value)>,
@@ -478,10 +526,13 @@ struct Ctx {
 
 fn drive<O: Alpha, H: OutputChecker<O>>(ctx: &mut Ctx, h: H, checker: &'static str, rel: fn(&O, &O) -> bool) {
   let alphabet = O::alphabet(ctx.tier);
-  for o1 in &alphabet {
-    let d1 = format!("{:?}", o1);
-    for o2 in &alphabet {
-      let d2 = format!("{:?}", o2);
+  ctx.combinations += 1;
+  let labels: BTreeSet<String> = alphabet.iter().map(|o| o.label()).collect();
+  if labels.len() != alphabet.len() { engine_error(&format!("C12: labels of the alphabet of {} are not unique", O::NAME)); }
+  for (i1, o1) in alphabet.iter().enumerate() {
+    let d1 = o1.label();
+    for (i2, o2) in alphabet.iter().enumerate() {
+      let d2 = o2.label();
       if let Some(flt) = &ctx.filter {
         if flt.checker != checker || flt.ty != O::NAME || flt.o1 != d1 || flt.o2 != d2 { continue; }
       }
@@ -501,7 +552,7 @@ fn drive<O: Alpha, H: OutputChecker<O>>(ctx: &mut Ctx, h: H, checker: &'static s
       let stamp_o2 = match &stamp_o2 { Outcome::Done(s) => Some(s.as_str()), Outcome::Panicked(_) => None };
       let j = judge(expected, &obs, stamp_o2);
       ctx.evaluations += j.evaluations;
-      if o1 != o2 { ctx.nontrivial.insert((checker.to_string(), O::NAME.to_string(), d1.clone(), d2.clone())); }
+      if i1 != i2 { ctx.nontrivial.insert((checker.to_string(), O::NAME.to_string(), d1.clone(), d2.clone())); }
       if let Outcome::Done(d) = &obs.direct {
         *ctx.outcomes.entry((checker.to_string(), O::NAME.to_string(), d.inconsistency.is_none())).or_default() += 1;
         let e = ctx.per_checker.entry(checker.to_string()).or_default();
@@ -518,7 +569,8 @@ fn drive<O: Alpha, H: OutputChecker<O>>(ctx: &mut Ctx, h: H, checker: &'static s
       });
       // Samples: per checker the first off-diagonal consistent and the first inconsistent case (plus first diagonal).
       let class = (checker.to_string(), expected);
-      if (o1 != o2 || !expected || checker == "EqualsChecker") && ctx.sample_keys.insert(class) && ctx.samples.len() < 12 {
+      let class = if i1 != i2 && o1 == o2 { (format!("{} (equal values in different representations)", class.0), expected) } else { class };
+      if (i1 != i2 || !expected || checker == "EqualsChecker") && ctx.sample_keys.insert(class) && ctx.samples.len() < 16 {
         ctx.samples.push(case_json(&obs));
       }
       for f in j.failures {
@@ -535,6 +587,8 @@ macro_rules! for_all_combos {
     drive::<(), _>($ctx, EqualsChecker, "EqualsChecker", rel_equals);
     drive::<String, _>($ctx, EqualsChecker, "EqualsChecker", rel_equals);
     drive::<Result<u8, u8>, _>($ctx, EqualsChecker, "EqualsChecker", rel_equals);
+    drive::<Cow<'static, str>, _>($ctx, EqualsChecker, "EqualsChecker", rel_equals);
+    drive::<Norm, _>($ctx, EqualsChecker, "EqualsChecker", rel_equals);
     drive::<Result<u8, u8>, _>($ctx, OkEqualsChecker, "OkEqualsChecker", rel_ok_equals);
     drive::<Result<u8, u8>, _>($ctx, ErrEqualsChecker, "ErrEqualsChecker", rel_err_equals);
     drive::<Result<u8, u8>, _>($ctx, ResultChecker, "ResultChecker", rel_result);
@@ -543,6 +597,8 @@ macro_rules! for_all_combos {
     drive::<(), _>($ctx, AlwaysConsistent, "AlwaysConsistent", rel_always);
     drive::<String, _>($ctx, AlwaysConsistent, "AlwaysConsistent", rel_always);
     drive::<Result<u8, u8>, _>($ctx, AlwaysConsistent, "AlwaysConsistent", rel_always);
+    drive::<Cow<'static, str>, _>($ctx, AlwaysConsistent, "AlwaysConsistent", rel_always);
+    drive::<Norm, _>($ctx, AlwaysConsistent, "AlwaysConsistent", rel_always);
   }};
 }
 
@@ -551,7 +607,7 @@ fn new_ctx(tier: Tier, filter: Option<Filter>, twice: bool) -> Ctx {
     tier, filter, twice,
     stamp_states: BTreeSet::new(), transitions: 0, e2e_runs: 0, evaluations: 0,
     nontrivial: BTreeSet::new(), outcomes: BTreeMap::new(), per_checker: BTreeMap::new(),
-    samples: Vec::new(), sample_keys: BTreeSet::new(), failures: Vec::new(), matched: 0,
+    combinations: 0, samples: Vec::new(), sample_keys: BTreeSet::new(), failures: Vec::new(), matched: 0,
   }
 }
 
@@ -620,7 +676,7 @@ pub fn run(args: &Args) -> i32 {
   rep.set("end_to_end_pie_runs", json!(ctx.e2e_runs));
   rep.set("evaluations", json!(ctx.evaluations));
   rep.set("distinct_nontrivial", json!(ctx.nontrivial.len()));
-  rep.set("distinct_nontrivial_rule", json!("distinct (checker, output type, o1, o2) with o1 != o2, i.e. every case whose verdict does not follow from reflexivity alone"));
+  rep.set("distinct_nontrivial_rule", json!("distinct (checker, output type, o1, o2) where o1 and o2 are different members of the alphabet (including members that are equal by Eq but differ in representation), i.e. every case whose verdict does not follow from checking a value against its very own stamp"));
   rep.set("distinct_outcomes", json!(ctx.outcomes.len()));
   rep.set("distinct_outcomes_detail", Value::Array(ctx.outcomes.iter().map(|((c, t, cons), n)| json!({"checker": c, "type": t, "verdict": word(*cons), "cases": n})).collect()));
   rep.set("per_checker_consistent_inconsistent", Value::Object(ctx.per_checker.iter().map(|(c, (a, b))| (c.clone(), json!({"consistent": a, "inconsistent": b}))).collect()));
@@ -632,12 +688,14 @@ pub fn run(args: &Args) -> i32 {
     "Result<u8,u8>_values": Result::<u8, u8>::alphabet(args.tier).len(),
     "Option<u8>_values": Option::<u8>::alphabet(args.tier).len(),
     "String_values": String::alphabet(args.tier),
-    "checker_type_combinations": 13,
+    "checker_type_combinations": ctx.combinations,
+    "Cow<'static,str>_values": Cow::<'static, str>::alphabet(args.tier).iter().map(|o| o.label()).collect::<Vec<_>>(),
+    "Norm_values": Norm::alphabet(args.tier).iter().map(|o| o.label()).collect::<Vec<_>>(),
     "routes": ["trait", "topdown", "bottomup"],
     "object_safe_proxy": "pie::trait_object::task::OutputCheckerObj is pub(crate)-unreachable (and dead code inside pie); the object-safe path pie actually uses (TaskDependencyObj: TopDownCheckObj::is_consistent, is_consistent_bottom_up) is covered by the topdown/bottomup routes",
-    "parametricity": "the checkers use only ==, clone, is_ok/is_err/ok()/err() of the payload, so three distinct payload values exercise every branch; the unbounded claim rests on this argument",
+    "parametricity": "the checkers may use only ==, clone, is_ok/is_err/ok()/err() of the payload, so three distinct payload values exercise every branch; the unbounded claim rests on this argument. '==' means the output type's own Eq, NOT structural identity (enum variant, representation): this is exercised by two output types whose Eq relates different variants, Cow<'static,str> (Borrowed(\"a\") == Owned(\"a\")) and Norm with a hand-written normalising PartialEq (Short(1) == Full(1,0))",
   }));
-  rep.assume("Output types other than u8, Option<u8>, (), String, Result<u8,u8> behave alike because the checkers are parametric in the payload (only ==, clone, is_ok/is_err are used).");
+  rep.assume("Output types other than u8, Option<u8>, (), String, Result<u8,u8>, Cow<'static,str>, Norm behave alike because the checkers are parametric in the payload (only the type's own ==, clone, is_ok/is_err may be used; never structural identity such as the enum variant).");
   rep.assume("OutputCheckerObj (object-safe proxy) is not nameable from an external crate; covered indirectly through TaskDependencyObj in real builds.");
 
   let mut anomalies = Vec::new();
@@ -698,6 +756,34 @@ mod tests {
         if rel_equals(&a, &b) { assert!(rel_ok_equals(&a, &b) && rel_err_equals(&a, &b)); }
         if rel_ok_equals(&a, &b) || rel_err_equals(&a, &b) { assert!(rel_result(&a, &b)); }
       }
+    }
+  }
+
+  #[test]
+  fn representation_insensitive_types() {
+    use std::collections::hash_map::DefaultHasher;
+    use std::hash::Hasher;
+    let h = |n: &Norm| { let mut s = DefaultHasher::new(); n.hash(&mut s); s.finish() };
+    assert!(rel_equals(&Norm::Short(1), &Norm::Full(1, 0)));
+    assert!(!rel_equals(&Norm::Short(1), &Norm::Full(1, 1)));
+    assert!(!rel_equals(&Norm::Short(0), &Norm::Short(1)));
+    for a in Norm::alphabet(Tier::Thorough) {
+      for b in Norm::alphabet(Tier::Thorough) {
+        assert_eq!(a == b, a.normal() == b.normal());
+        if a == b { assert_eq!(h(&a), h(&b)); }
+      }
+    }
+    let b: Cow<'static, str> = Cow::Borrowed("a");
+    let o: Cow<'static, str> = Cow::Owned("a".to_string());
+    assert!(rel_equals(&b, &o));
+    assert_ne!(b.label(), o.label());
+    assert_ne!(std::mem::discriminant(&b), std::mem::discriminant(&o));
+    // cloning keeps the representation (so the variants survive the trip through pie's store)
+    assert_eq!(b.clone().label(), b.label());
+    assert_eq!(o.clone().label(), o.label());
+    for tier in [Tier::Quick, Tier::Thorough] {
+      let l: BTreeSet<String> = Cow::<'static, str>::alphabet(tier).iter().map(|o| o.label()).collect();
+      assert_eq!(l.len(), Cow::<'static, str>::alphabet(tier).len());
     }
   }
 
